@@ -87,13 +87,13 @@ func (m *MMap) Write(b []byte) (int, error) {
 }
 
 func (m *MMap) Sync() error {
-	if vhook.On {
-		vhook.IO("sync", m.file.Name(), m.virtualSize, 0, nil)
-		defer vhook.IO("syncDone", m.file.Name(), m.virtualSize, 0, nil)
-	}
 	// 映射区域尚未建立时无数据可刷新
 	if m.activeMap == nil {
 		return nil
+	}
+	if vhook.On {
+		vhook.IO("sync", m.file.Name(), m.virtualSize, 0, nil)
+		defer vhook.IO("syncDone", m.file.Name(), m.virtualSize, 0, nil)
 	}
 	return m.activeMap.Flush()
 }
@@ -128,9 +128,11 @@ func (m *MMap) ResetFileSize() error {
 	// 文件收缩后原映射区域超出文件末尾的部分不可再访问, 需解除映射
 	// 并重置映射边界, 使后续读写重新扩展文件并建立映射
 	if m.activeMap != nil {
+		vhook.IO("sync", m.file.Name(), m.virtualSize, 0, nil)
 		if err := m.activeMap.Flush(); err != nil {
 			return err
 		}
+		vhook.IO("syncDone", m.file.Name(), m.virtualSize, 0, nil)
 		if err := m.activeMap.Unmap(); err != nil {
 			return err
 		}
